@@ -776,6 +776,19 @@ def impl(case):
         except Exception as ex:
             r = {'err': '%s: %s' % (type(ex).__name__, ex)}
         return r
+    if k in ('enc', 'dec'):
+        import zlib
+        if zlib.crc32(repr(sorted(case.items())).encode()) % 3 == 0:
+            # earlier calls under the SAME key that fail (an encrypted block that is not a whole number of cipher blocks):
+            # what they leave behind must not reach the calls that follow
+            for junk in (b'\x01' * 7, b'\x02' * 3, b'\x03' * 17):
+                for fn in (lambda: cls.from_enc_bytes(junk, key=case['key'], **from_kw(case)),
+                           lambda: cls.encrypt(junk, case['key']) if hasattr(cls, 'encrypt') else None,
+                           lambda: cls.decrypt(junk, case['key']) if hasattr(cls, 'decrypt') else None):
+                    try:
+                        fn()
+                    except Exception:
+                        pass
     if k == 'enc':
         alg = CLASSES[case['cls']][1]
         key = case['key']
